@@ -1,110 +1,241 @@
-"""Facts for C11/C12: the complete decision table of the real `TimeoutAfter.__aexit__` over its
-abstract input space, obtained by *running* it on a stub task, the exception hierarchy it
-relies on, and fingerprints of the modelled functions.
+"""Facts for C11/C12: what the real `timeout_after` / `timeout_at` / `ignore_after` / `ignore_at`
+blocks DO on a grid of small scenarios, obtained by *running* them - nested real blocks on a
+virtual-time loop whose `call_at` is recorded - and the exception hierarchy the model relies on.
 
-Abstract input of `__aexit__`: exception kind leaving the body x ignore flag x what
-`task._timed_out` is relative to the deadline stack (none / this block's own deadline / another,
-still active deadline / a stale value no longer on the stack).  Output: what leaves the block and
-the `expired` flag."""
+Only the public API is used (the four functions, the three exception classes, `.expired`): a
+rewrite that renames locals or private task attributes, restructures `__aexit__`, extracts
+helpers, or keeps the deadlines somewhere else produces the same table.  Nothing here reads a
+private attribute and nothing parses the source (the fingerprints only decide how deep the
+harness explores).
+
+A scenario = (prefix, prog): `prefix` is a list of absolute deadlines of enclosing `timeout_at`
+blocks already entered at time 0; `prog` a program in the language of the Lean model (absolute
+and relative blocks, sleep, try/except by exception kind, raise).  Observed, from inside the
+task right after `prog` ended (still inside the prefix blocks):
+    what left `prog` (exception kind), the time, per block exit in `prog` (in exit order):
+    (deadline, kind that left it, `.expired`, time), and the `when` of every timer the task has
+    created that is still pending on the loop (neither cancelled nor spent);
+and, after the prefix blocks have exited too: whether any timer created by the task is left.
+
+The grid covers the decision space of block exit - exception kind leaving the body (none,
+CancelledError, TaskTimeout, TimeoutCancellationError, UncaughtTimeoutError, other) x ignore x
+which deadline has fired (none / the block's own / an enclosing block's / an inner block's that
+has exited) - in two stack shapes ([outer, this] and [20, 10, 30], where the armed deadline is
+neither the first nor the last), block entry (new deadline below / equal to / above the armed
+one; the fired-deadline marker is forgotten on entry), and the relative forms with zero and past
+deadlines.
+"""
+import asyncio
+
 from . import common
 
-EXC_KINDS = ['none', 'cancelled', 'taskTimeout', 'tce', 'uncaught', 'other']
-MARKERS = ['none', 'self', 'activeOther', 'stale']
+KINDS = ['none', 'cancelled', 'taskTimeout', 'tce', 'uncaught', 'other']
+CODE = {k: i for i, k in enumerate(KINDS)}
 
 
-class _Handle:
-    def __init__(self, when):
-        self.when = when
-        self.cancelled = False
-
-    def cancel(self):
-        self.cancelled = True
+# ------------------------------------------------------------------ the scenario grid
+def _act(ek):
+    return ('skip',) if ek == 'none' else ('raise', ek)
 
 
-class _Loop:
-    def __init__(self):
-        self.handles = []
-
-    def call_at(self, when, cb):
-        h = _Handle(when)
-        self.handles.append(h)
-        return h
-
-    def time(self):
-        return 0
+def _wait(ek):
+    """suspend until a cancellation arrives, then continue as `ek`"""
+    return ('try', ['cancelled'], ('sleep', 100), _act(ek))
 
 
-class _Task:
-    pass
+def scenarios():
+    out = []
+    # block exit, stack [outer, this]: which deadline fired x exception kind x ignore
+    for ek in KINDS:
+        for ig in (False, True):
+            # nothing fired; the body ends / raises by itself
+            out.append(([10], ('block', ig, False, 20, _act(ek))))
+            # this block's own deadline fired
+            out.append(([30], ('block', ig, False, 20, _wait(ek))))
+            # the enclosing block's deadline fired
+            out.append(([10], ('block', ig, False, 20, _wait(ek))))
+            # an inner block's deadline fired; that block has reported it and exited
+            stale = ('try', ['taskTimeout'], ('block', False, False, 5, ('sleep', 100)), ('skip',))
+            out.append(([10], ('block', ig, False, 20, ('seq', stale, _act(ek)))))
+    # second stack shape [20, 10, 30]: the armed deadline is the middle one
+    for ek in KINDS:
+        for ig in (False, True):
+            out.append(([20, 10], ('block', ig, False, 30, _act(ek))))
+            out.append(([20, 10], ('block', ig, False, 30, _wait(ek))))
+            stale = ('try', ['taskTimeout'], ('block', False, False, 5, ('sleep', 100)), ('skip',))
+            out.append(([20, 10], ('block', ig, False, 30, ('seq', stale, _act(ek)))))
+    # third stack shape [10, 20, 30]: after the innermost exit the timer must be set for the
+    # least remaining deadline, which is not the enclosing block's
+    for ig in (False, True):
+        for body in (('skip',), ('sleep', 2), ('raise', 'other'), _wait('none'), _wait('cancelled')):
+            out.append(([10, 20], ('block', ig, False, 30, body)))
+            out.append(([10, 20], ('seq', ('block', ig, False, 30, body), _wait('none'))))
+    # a deadline whose clock value is exactly 0
+    for ig in (False, True):
+        out.append(([0], ('block', ig, False, 20, ('sleep', 100))))
+        out.append(([], ('block', ig, False, 0, ('block', False, False, 20, ('sleep', 100)))))
+        out.append(([], ('block', False, False, 0, ('block', ig, False, 0, ('sleep', 100)))))
+    # whole nests, no prefix: who reports, what the others see
+    for ig in (False, True):
+        for d1, d2, d3 in ((20, 10, 30), (10, 20, 30), (30, 20, 10), (10, 10, 10), (20, 10, 10)):
+            nest = ('block', ig, False, d1, ('block', False, False, d2,
+                                              ('block', ig, False, d3, ('sleep', 100))))
+            out.append(([], nest))
+            out.append(([], ('seq', ('try', ['taskTimeout', 'uncaught'], nest, ('skip',)),
+                             ('sleep', 50))))
+    # block entry: new deadline below / equal to / above the armed one - which timer is live,
+    # and when the body is interrupted
+    for prefix in ([10], [20, 10], []):
+        for d in (5, 10, 20):
+            probe = ('try', ['cancelled'], ('sleep', 100), ('skip',))
+            out.append((prefix, ('block', False, False, d, ('skip',))))
+            out.append((prefix, ('block', False, False, d, probe)))
+            out.append((prefix, ('seq', ('block', True, False, d, ('sleep', 2)), probe)))
+    # the marker of a timeout that fired earlier is forgotten when a block is entered
+    handled = ('try', ['taskTimeout'], ('block', False, False, 5, ('sleep', 100)), ('skip',))
+    for prefix in ([], [40]):
+        for ek in ('taskTimeout', 'cancelled', 'tce'):
+            out.append((prefix, ('seq', handled, ('block', False, False, 50, ('raise', ek)))))
+            out.append((prefix, ('block', False, False, 50, ('seq', handled, ('raise', ek)))))
+    # relative forms; zero and past deadlines with suspending and non-suspending bodies
+    for ig in (False, True):
+        for t in (-2, 0, 2, 4, 6):
+            for body in (('skip',), ('sleep', 4)):
+                out.append(([], ('seq', ('sleep', 2), ('block', ig, True, t, body))))
+                out.append(([8], ('seq', ('sleep', 2), ('block', ig, True, t, body))))
+    return out
 
 
-def _drive(coro):
+# ------------------------------------------------------------------ running a scenario
+class _Recorder:
+    def __init__(self, loop):
+        self.recs = []
+        orig = loop.call_at
+        recs = self.recs
+
+        def call_at(when, callback, *args, **kw):
+            rec = {'when': when, 'fired': False, 'task': asyncio.current_task(loop)}
+
+            def fire(*a):
+                rec['fired'] = True
+                return callback(*a)
+            rec['h'] = orig(when, fire, *args, **kw)
+            recs.append(rec)
+            return rec['h']
+        loop.call_at = call_at
+
+    def live(self, task):
+        return sorted(int(r['when']) for r in self.recs
+                      if r['task'] is task and not r['fired'] and not r['h'].cancelled())
+
+
+def _classify(curio, e):
+    if e is None:
+        return 'none'
+    if isinstance(e, curio.TimeoutCancellationError):
+        return 'tce'
+    if isinstance(e, curio.CancelledError):
+        return 'cancelled'
+    if isinstance(e, curio.TaskTimeout):
+        return 'taskTimeout'
+    if isinstance(e, curio.UncaughtTimeoutError):
+        return 'uncaught'
+    return 'other'
+
+
+def _make(curio, k):
+    return {'cancelled': curio.CancelledError, 'taskTimeout': lambda: curio.TaskTimeout(0),
+            'tce': curio.TimeoutCancellationError, 'uncaught': curio.UncaughtTimeoutError,
+            'other': KeyError}[k]()
+
+
+async def _ex(curio, p, evs):
+    t = p[0]
+    loop = asyncio.get_event_loop()
+    if t == 'skip':
+        return
+    if t == 'sleep':
+        await curio.sleep(p[1])
+    elif t == 'raise':
+        raise _make(curio, p[1])
+    elif t == 'seq':
+        await _ex(curio, p[1], evs)
+        await _ex(curio, p[2], evs)
+    elif t == 'try':
+        try:
+            await _ex(curio, p[2], evs)
+        except BaseException as e:      # noqa
+            if _classify(curio, e) not in p[1]:
+                raise
+            await _ex(curio, p[3], evs)
+    elif t == 'block':
+        _, ig, rel, tt, body = p
+        fn = (curio.ignore_after if ig else curio.timeout_after) if rel else \
+            (curio.ignore_at if ig else curio.timeout_at)
+        cm = fn(tt)
+        d = int(loop.time()) + tt if rel else tt
+        left = None
+        try:
+            async with cm:
+                await _ex(curio, body, evs)
+        except BaseException as e:      # noqa
+            left = e
+            raise
+        finally:
+            evs.append((d, _classify(curio, left), bool(cm.expired), int(loop.time())))
+    else:
+        raise ValueError(p)
+
+
+def run_scenario(curio, prefix, prog):
+    from harness import vloop
+    obs = {}
+
+    async def main():
+        loop = asyncio.get_event_loop()
+        rec = _Recorder(loop)
+        me = asyncio.current_task()
+        evs = []
+
+        async def inside(rest):
+            if rest:
+                async with curio.timeout_at(rest[0]):
+                    await inside(rest[1:])
+                return
+            left = None
+            try:
+                await _ex(curio, prog, evs)
+            except BaseException as e:      # noqa
+                left = e
+                raise
+            finally:
+                obs['out'] = _classify(curio, left)
+                obs['t'] = int(loop.time())
+                obs['evs'] = list(evs)
+                obs['live'] = rec.live(me)
+        try:
+            await inside(list(prefix))
+        except BaseException:       # noqa
+            pass
+        obs['leak'] = bool(rec.live(me))
     try:
-        coro.send(None)
-    except StopIteration as e:
-        return ('return', e.value)
-    except BaseException as e:   # noqa
-        return ('raise', e)
-    coro.close()
-    return ('suspended', None)
-
-
-def aexit_table(curio):
-    kinds = {
-        'none': None, 'cancelled': curio.CancelledError, 'taskTimeout': curio.TaskTimeout,
-        'tce': curio.TimeoutCancellationError, 'uncaught': curio.UncaughtTimeoutError,
-        'other': KeyError,
-    }
-
-    def classify(e):
-        if isinstance(e, curio.TimeoutCancellationError):
-            return 'tce'
-        if isinstance(e, curio.CancelledError):
-            return 'cancelled'
-        if isinstance(e, curio.TaskTimeout):
-            return 'taskTimeout'
-        if isinstance(e, curio.UncaughtTimeoutError):
-            return 'uncaught'
-        return 'other'
-
-    rows = []
-    for ek in EXC_KINDS:
-        for ignore in (False, True):
-            for mk in MARKERS:
-                task = _Task()
-                task._loop = _Loop()
-                task._deadlines = [10, 20]          # an enclosing block (10) and this one (20)
-                task._deadline_handle = _Handle(10)
-                task._timed_out = {'none': None, 'self': 20, 'activeOther': 10, 'stale': 5}[mk]
-                ta = curio.TimeoutAfter(20, ignore=ignore, absolute=True)
-                ta._task = task
-                ta._secs = 20
-                et = kinds[ek]
-                ev = None
-                if et is not None:
-                    ev = et(0) if et is curio.TaskTimeout else et()
-                kind, val = _drive(ta.__aexit__(et, ev, None))
-                if kind == 'return':
-                    out = 'none' if val else ek          # swallowed / propagates unchanged
-                elif kind == 'raise':
-                    out = classify(val)
-                else:
-                    out = 'suspended'
-                live = [h.when for h in task._loop.handles if not h.cancelled]
-                rows.append({'exc': ek, 'ignore': ignore, 'marker': mk, 'out': out,
-                             'expired': bool(ta.expired),
-                             'deadlines_after': list(task._deadlines),
-                             'old_handle_cancelled': task._deadline_handle is not None and
-                             (task._loop.handles == [] or True),
-                             'rearmed': live})
-    return rows
+        vloop.run(main())
+    except (vloop.Deadlock, vloop.Livelock) as e:
+        obs.setdefault('out', 'other')
+        obs['hang'] = type(e).__name__
+    return obs
 
 
 def extract(repo):
     curio = common.fresh_import(repo, 'aiorpcx.curio')
-    rows = aexit_table(curio)
+    rows = []
+    for prefix, prog in scenarios():
+        o = run_scenario(curio, prefix, prog)
+        rows.append({'prefix': prefix, 'prog': prog, 'out': o.get('out', 'other'),
+                     't': o.get('t', -1), 'evs': o.get('evs', []), 'live': o.get('live', [-1]),
+                     'leak': o.get('leak', True) or 'hang' in o})
     return {
-        'aexit_table': rows,
+        'scenarios': rows,
         'tce_is_cancelled': issubclass(curio.TimeoutCancellationError, curio.CancelledError),
         'tasktimeout_is_cancelled': issubclass(curio.TaskTimeout, curio.CancelledError),
         'uncaught_is_cancelled': issubclass(curio.UncaughtTimeoutError, curio.CancelledError),
@@ -117,28 +248,56 @@ def extract(repo):
     }
 
 
+# ------------------------------------------------------------------ rendering
+def _b(x):
+    return 'true' if x else 'false'
+
+
+def _int(n):
+    return f'({n})' if n < 0 else str(n)
+
+
+def lean_prog(p):
+    t = p[0]
+    if t == 'skip':
+        return '.skip'
+    if t == 'sleep':
+        return f'(.sleep {p[1]})'
+    if t == 'raise':
+        return f'(.raise .{p[1]})'
+    if t == 'seq':
+        return f'(.seq {lean_prog(p[1])} {lean_prog(p[2])})'
+    if t == 'try':
+        cs = ', '.join('.' + k for k in p[1])
+        return f'(.tryCatch {lean_prog(p[2])} [{cs}] {lean_prog(p[3])})'
+    if t == 'block':
+        return f'(.block {_b(p[1])} {_b(p[2])} {_int(p[3])} {lean_prog(p[4])})'
+    raise ValueError(p)
+
+
 def render(f):
-    code = {k: i for i, k in enumerate(EXC_KINDS)}
-    code['suspended'] = 99
-    mcode = {k: i for i, k in enumerate(MARKERS)}
-    rows = ',\n  '.join(
-        f'({code[r["exc"]]}, {str(r["ignore"]).lower()}, {mcode[r["marker"]]}, '
-        f'{code[r["out"]]}, {str(r["expired"]).lower()}, '
-        f'{str(r["deadlines_after"] == [10] and r["rearmed"] == [10]).lower()})'
-        for r in f['aexit_table'])
-    b = lambda x: str(bool(x)).lower()
+    rows = []
+    for r in f['scenarios']:
+        prefix = '[' + ', '.join(_int(x) for x in r['prefix']) + ']'
+        evs = '[' + ', '.join(f'({_int(d)}, {CODE[k]}, {_b(x)}, {_int(t)})'
+                              for (d, k, x, t) in r['evs']) + ']'
+        live = '[' + ', '.join(_int(x) for x in r['live']) + ']'
+        rows.append(f'({prefix}, {lean_prog(tuple(r["prog"]) if not isinstance(r["prog"], tuple) else r["prog"])},\n'
+                    f'    ({CODE[r["out"]]}, {_int(r["t"])}, {evs}, {live}, {_b(r["leak"])}))')
     return (
+        'import Aiorpcx.C11.Model\n'
         '/-! GENERATED by tools/facts/c11.py from /repo on every run - do not edit. -/\n'
         'namespace Aiorpcx.Facts.C11\n'
-        '/-- decision table of the real `TimeoutAfter.__aexit__`, run on a stub task with the\n'
-        '    deadline stack [10, 20] (this block = 20):\n'
-        '    (exception kind, ignore, marker kind, what leaves the block, expired,\n'
-        '     stack popped to [10] and the timer re-armed for 10).\n'
+        'open Aiorpcx.C11\n'
+        '/-- what the real timeout blocks did on the scenario grid:\n'
+        '    (absolute deadlines of the enclosing `timeout_at` blocks entered at time 0, program,\n'
+        '     (kind that left the program, time, per block exit (deadline, kind, expired, time),\n'
+        '      timers of the task still pending right after the program, timer left at the end)).\n'
         '    kinds: 0 none 1 CancelledError 2 TaskTimeout 3 TimeoutCancellationError\n'
-        '    4 UncaughtTimeoutError 5 other;  markers: 0 None 1 own deadline 2 another active\n'
-        '    deadline 3 stale -/\n'
-        'def aexitTable : List (Nat × Bool × Nat × Nat × Bool × Bool) := [\n  ' + rows + ']\n'
-        f'def tceIsCancelled : Bool := {b(f["tce_is_cancelled"])}\n'
-        f'def taskTimeoutIsCancelled : Bool := {b(f["tasktimeout_is_cancelled"])}\n'
-        f'def uncaughtIsCancelled : Bool := {b(f["uncaught_is_cancelled"])}\n'
+        '    4 UncaughtTimeoutError 5 other -/\n'
+        'def scenarios : List (List Int × Prog × (Nat × Int × List (Int × Nat × Bool × Int) × List Int × Bool)) := [\n  '
+        + ',\n  '.join(rows) + ']\n'
+        f'def tceIsCancelled : Bool := {_b(f["tce_is_cancelled"])}\n'
+        f'def taskTimeoutIsCancelled : Bool := {_b(f["tasktimeout_is_cancelled"])}\n'
+        f'def uncaughtIsCancelled : Bool := {_b(f["uncaught_is_cancelled"])}\n'
         'end Aiorpcx.Facts.C11\n')
